@@ -500,6 +500,38 @@ def main():
                      f"unit traction (thickness 0.5) on the boundary of a disc meshed with {et}: resultant {fC[0]!r}, thickness x length of the interpolated boundary = {wantC[0]!r} "
                      f"(thickness x sum of the chords = {0.5 * chord!r}); traction x on 'y': {fC[1]!r}, expected {wantC[1]!r}", dict(identC, boundary=gB.elemType.name))
 
+    # ---------------- a warped 4-node face: the loaded region is the bilinear surface the face interpolates ----------------
+    # (boundary faces of hexahedra with moved nodes, quadrangle meshes of curved surfaces): resultant of a unit traction = area of the
+    # bilinear patch (12 x 12 Gauss points on |dx/dr x dx/ds|), not the area of its projection on a plane
+    from EasyFEA.FEM import Mesh as _MeshW
+    from EasyFEA.FEM._group_elem import GroupElemFactory as _GEFW
+    for lift in ((0.6,) if not thorough else (0.6, -0.3, 1.0)):
+        identW = dict(elemType="QUAD4 face of one HEXA8", lift=lift, load="add_surfLoad(nodes of the top face, [1.0], ['z'])")
+        res.case(("warped face", lift))
+        try:
+            XW = np.array([[0, 0, 0], [1, 0, 0], [1, 1, 0], [0, 1, 0], [0, 0, 1], [1, 0, 1], [1, 1, 1 + lift], [0, 1, 1]], float)
+            hexW = _GEFW.Create(ElemType.HEXA8, np.array([[0, 1, 2, 3, 4, 5, 6, 7]]), XW)
+            topW = _GEFW.Create(ElemType.QUAD4, np.array([[4, 5, 6, 7]]), XW)
+            meshW = _MeshW({ElemType.HEXA8: hexW, ElemType.QUAD4: topW})
+            simW = Simulations.Elastic(meshW, Models.Elastic.Isotropic(3, E=10.0, v=0.25))
+            simW.add_surfLoad(np.array([4, 5, 6, 7]), [1.0], ["z"])
+            gotW = float(np.asarray(simW.Bc_vector_Neumann()).reshape(-1, 3)[:, 2].sum())
+            xiW, wW = np.polynomial.legendre.leggauss(12)
+            P4 = XW[[4, 5, 6, 7]]
+            areaW = 0.0
+            for a_, wa_ in zip(xiW, wW):
+                for b_, wb_ in zip(xiW, wW):
+                    dNr = np.array([-(1 - b_), (1 - b_), (1 + b_), -(1 + b_)]) / 4
+                    dNs = np.array([-(1 - a_), -(1 + a_), (1 + a_), (1 - a_)]) / 4
+                    areaW += wa_ * wb_ * np.linalg.norm(np.cross(dNr @ P4, dNs @ P4))
+        except Exception as ex:  # noqa: BLE001
+            res.fail("warped face raises", f"{type(ex).__name__}: {str(ex)[:200]}", identW)
+            continue
+        # the 'mass' rule of QUAD4 (2 x 2 points) integrates |dx/dr x dx/ds| of this patch to about 1e-4; the projection is off by 1e-1
+        if not (abs(gotW - areaW) <= 2e-3 * areaW):
+            res.fail("warped 4-node face: resultant of a distributed load", f"unit traction on the top face of a hexahedron whose corner is lifted by {lift}: resultant {gotW!r}, area of the bilinear face {areaW!r} "
+                     f"(area of its projection on the plane of its first corners: 1.0)", identW)
+
     # ---------------- intensities owned by the caller: one array / function object given for several components, and given again in a second load case ----------------
     # (`f = ...; simu.add_neumann(nodes, [f, f], ["x", "y"])`, then the same f in the next load case.) Every component and every load case
     # must receive the forces of the intensity the caller wrote down: for a concentrated load value_i / N on selected node i, for a distributed
